@@ -397,11 +397,11 @@ def check_mask(ctx, ir, D):
     ok = ok and ports and all(p.startswith(W) for p in ports)
     defs = {}
     for p in ports if ok else []:
-        d = q.comb_def(w, 'self.' + p[len(W):])
-        if d is None or any(n.op == 'sig' for n in d.walk()):
+        fs = q.flag_states(w, fsm, 'self.' + p[len(W):])
+        if any(v == 'cond' for v in fs.values()):
             ok = False
             break
-        defs[p] = d
+        defs[p] = fs
     ctx.ob('C22.rxcmd-mask', C + '.rxcmd-mask.source', bool(ok), ds[0].loc,
            'the decoder\'s register-operation mask must be an unconditional function of register-window outputs that '
            'depend on the window state only: %s' % [q.fmt(a) for a in ds])
@@ -410,10 +410,8 @@ def check_mask(ctx, ir, D):
 
     def masked(state):
         def sub(e):
-            if e.op == 'ongoing':
-                return E('const', val=int(e.args[1] == state), w=1)
             if e.op == 'sig' and e.canon() in defs:
-                return sub(defs[e.canon()])
+                return E('const', val=int(defs[e.canon()][state]), w=1)
             return E(e.op, tuple(sub(a) if isinstance(a, E) else a for a in e.args), w=e.w, val=e.val, label=e.label)
         try:
             return bool(ev(sub(ds[0].rhs), {}))
